@@ -576,6 +576,9 @@ impl Engine for C12 {
         json!({"calendar": sc.cal, "today": sc.today, "published_today": sc.published_today, "malformed": sc.malformed, "lookups": sc.lookups, "shared_loader_sequences": sc.sequences,
                "app_runs": sc.app_runs.iter().map(|r| app_csv(r)).collect::<Vec<_>>() })
     }
+    fn hang_or_death_is_violation(&self) -> bool {
+        true
+    }
     fn level(&self) -> &'static str {
         "exploration"
     }
